@@ -167,7 +167,18 @@ func (w *world) open() error {
 	}
 	wal.SetFlushInterval(time.Hour) // no background flushes: the behaviour decides when the buffer reaches the disk
 	w.wal = wal
-	return wal.Start()
+	if err := wal.Start(); err != nil {
+		return err
+	}
+	if w.base > 0 && wal.Group().MaxIndex() == w.base {
+		// BaseWAL.OnStart writes the marker of height 0 into a NEW log only (empty head and no rotated file).  The seeded
+		// empty file wal.<base-1> is the only numbered file here, i.e. this is what a new log looks like when its indices
+		// start at base: the marker is written for it
+		if sz, err := wal.Group().Head.Size(); err == nil && sz == 0 {
+			return wal.WriteSync(consensus.EndHeightMessage{Height: 0})
+		}
+	}
+	return nil
 }
 
 func (w *world) close() {
